@@ -1809,20 +1809,28 @@ impl VectorEngine {
             },
             FilterStrategy::PostFilter => {
                 // Post-filter: search first with oversample, then filter
-                let oversample_k = top_k
+                let mut oversample_k = top_k
                     .saturating_mul(filter_config.oversample_factor)
                     .max(top_k);
-                let candidates = self.search_in_collection(collection, query, oversample_k)?;
-                candidates
-                    .into_iter()
-                    .filter(|r| {
-                        let storage_key = Self::collection_embedding_key(collection, &r.key);
-                        self.store
-                            .get(&storage_key)
-                            .map(|t| Self::evaluate_filter(&t, filter))
-                            .unwrap_or(false)
-                    })
-                    .collect()
+                loop {
+                    let candidates = self.search_in_collection(collection, query, oversample_k)?;
+                    let exhausted = candidates.len() < oversample_k;
+                    let filtered: Vec<SearchResult> = candidates
+                        .into_iter()
+                        .filter(|r| {
+                            let storage_key = Self::collection_embedding_key(collection, &r.key);
+                            self.store
+                                .get(&storage_key)
+                                .map(|t| Self::evaluate_filter(&t, filter))
+                                .unwrap_or(false)
+                        })
+                        .collect();
+                    // Too few survivors although more candidates exist: widen and retry.
+                    if filtered.len() >= top_k || exhausted || oversample_k == usize::MAX {
+                        break filtered;
+                    }
+                    oversample_k = oversample_k.saturating_mul(2);
+                }
             },
         };
 
@@ -3585,17 +3593,24 @@ impl VectorEngine {
         config: &FilteredSearchConfig,
     ) -> Result<Vec<SearchResult>> {
         // Oversample to get more candidates
-        let oversample_k = top_k.saturating_mul(config.oversample_factor).max(top_k);
-        let candidates = self.search_similar(query, oversample_k)?;
+        let mut oversample_k = top_k.saturating_mul(config.oversample_factor).max(top_k);
+        loop {
+            let candidates = self.search_similar(query, oversample_k)?;
+            let exhausted = candidates.len() < oversample_k;
 
-        // Filter candidates
-        let filtered: Vec<SearchResult> = candidates
-            .into_iter()
-            .filter(|r| self.evaluate_filter_for_key(&r.key, filter))
-            .take(top_k)
-            .collect();
+            // Filter candidates
+            let filtered: Vec<SearchResult> = candidates
+                .into_iter()
+                .filter(|r| self.evaluate_filter_for_key(&r.key, filter))
+                .take(top_k)
+                .collect();
 
-        Ok(filtered)
+            // Too few survivors although more candidates exist: widen and retry.
+            if filtered.len() >= top_k || exhausted || oversample_k == usize::MAX {
+                return Ok(filtered);
+            }
+            oversample_k = oversample_k.saturating_mul(2);
+        }
     }
 
     /// Evaluate a filter condition against an embedding's metadata.
